@@ -391,6 +391,24 @@ def _svgp_cell(case, ctx, g):
         ctx.close("qf_covar", ob.covariance_matrix, cb_j.expand(ob.covariance_matrix.shape), tol, cls=cls + ":cov:refilled_buffer", alt=cb_0.expand(ob.covariance_matrix.shape), strategy=strat, dist=dist)
         Xe = Xe2
         ref_mean_j, ref_mean_0 = rb_j, rb_0  # X now holds the refilled values
+        # the same model called with inputs of ANOTHER broadcast batch shape (one more leading dimension), then as before: each
+        # element of the batched call is the un-batched answer
+        if not case.get("xrel"):
+            with torch.no_grad():
+                try:
+                    o2 = m(X.unsqueeze(0).expand(2, *X.shape))
+                    o1 = m(X)
+                except Exception as e:
+                    ctx.info["rebatched_call_refused:" + type(e).__name__] += 1
+                    o2 = None
+            if o2 is not None:
+                ctx.close("qf_mean", o2.mean, rb_j.expand(o2.mean.shape), tol, cls=cls + ":mean:other_batch_shape", alt=rb_0.expand(o2.mean.shape), strategy=strat, dist=dist)
+                ctx.close("qf_covar", o2.covariance_matrix, cb_j.expand(o2.covariance_matrix.shape), tol, cls=cls + ":cov:other_batch_shape", alt=cb_0.expand(o2.covariance_matrix.shape), strategy=strat, dist=dist)
+                ctx.close("qf_covar", o1.covariance_matrix, cb_j.expand(o1.covariance_matrix.shape), tol, cls=cls + ":cov:back_to_first_batch_shape", alt=cb_0.expand(o1.covariance_matrix.shape), strategy=strat, dist=dist)
+                if not ciq:
+                    ctx.close("qf_covar", o2.covariance_matrix, ob.covariance_matrix.expand(o2.covariance_matrix.shape), (1e-11, 1e-10), cls=cls + ":cov:other_batch_shape_vs_first_call", strategy=strat, dist=dist)
+                    ctx.close("qf_mean", o2.mean, ob.mean.expand(o2.mean.shape), (1e-11, 1e-10), cls=cls + ":mean:other_batch_shape_vs_first_call", strategy=strat, dist=dist)
+                    ctx.close("qf_covar", o1.covariance_matrix, ob.covariance_matrix, (1e-11, 1e-10), cls=cls + ":cov:back_vs_first_call", strategy=strat, dist=dist)
     # mean-only evaluation (skip_posterior_variances) before and after the parameters have moved: still the closed form
     # of the CURRENT parameters
     if not ciq:
@@ -555,6 +573,26 @@ def _bdvs(case, ctx, g):
     ctx.close("bdvs_qf", out.mean, refs[0][0], (1e-7, 1e-7), cls="bdvs:mean", alt=refs[1][0])
     ctx.close("bdvs_qf", out.covariance_matrix, refs[0][1], (1e-7, 1e-7), cls="bdvs:cov", alt=refs[1][1])
     ctx.close("bdvs_qf", out_t.variance, torch.diagonal(refs[0][1]), (1e-7, 1e-7), cls="bdvs:train_var", alt=torch.diagonal(refs[1][1]))
+    # evaluation-mode calls with inputs of other broadcast batch shapes, one after the other (the cached K_ZZ factor is
+    # re-derived when the shape does not fit): every element is the un-batched answer, and so is a later un-batched call
+    with torch.no_grad():
+        m.eval()
+        m(X)
+        try:
+            o3 = m(X.unsqueeze(0).expand(3, N_, D))
+            o1 = m(X)
+        except Exception as e:
+            ctx.info["bdvs_rebatched_call_refused:" + type(e).__name__] += 1
+            o3 = None
+    if o3 is not None:
+        ctx.close("bdvs_qf", o3.mean, refs[0][0].expand(o3.mean.shape), (1e-7, 1e-7), cls="bdvs:mean:other_batch_shape", alt=refs[1][0].expand(o3.mean.shape))
+        ctx.close("bdvs_qf", o3.covariance_matrix, refs[0][1].expand(o3.covariance_matrix.shape), (1e-7, 1e-7), cls="bdvs:cov:other_batch_shape", alt=refs[1][1].expand(o3.covariance_matrix.shape))
+        ctx.close("bdvs_qf", o1.covariance_matrix, refs[0][1], (1e-7, 1e-7), cls="bdvs:cov:back_to_first_shape", alt=refs[1][1])
+        ctx.close("bdvs_qf", o1.mean, refs[0][0], (1e-7, 1e-7), cls="bdvs:mean:back_to_first_shape", alt=refs[1][0])
+        # (independent of where the jitter enters: the very same model on the very same points)
+        ctx.close("bdvs_qf", o3.covariance_matrix, out.covariance_matrix.expand(o3.covariance_matrix.shape), (1e-11, 1e-10), cls="bdvs:cov:other_batch_shape_vs_first_call")
+        ctx.close("bdvs_qf", o3.mean, out.mean.expand(o3.mean.shape), (1e-11, 1e-10), cls="bdvs:mean:other_batch_shape_vs_first_call")
+        ctx.close("bdvs_qf", o1.covariance_matrix, out.covariance_matrix, (1e-11, 1e-10), cls="bdvs:cov:back_to_first_shape_vs_first_call")
     if case["dist"] != "DeltaVariationalDistribution":
         import math
 
